@@ -179,8 +179,8 @@ INSERT_ENS = [
     CFG_FRAME,
     ('post_wf', ['C04', 'C13', 'C01', 'C03', 'C09', 'C10', 'C11', 'C05', 'C07', 'C08'], 'wf(%s, final(self).order@)' % M1),
     ('stats_frame', ['C15'], 'final(self).stats == old(self).stats'),
-    ('last_store_wins', ['C01', 'C11', 'C03', 'C09', 'C10'], '%s.contains_key(%s) && %s[%s] == %s' % (M1, K, M1, K, NEW)),
-    ('fits_exact', ['C04', 'C03', 'C20'], '(%s || old(self).limit is None || %s.len() < old(self).limit->Some_0) ==> '
+    ('last_store_wins', ['C01', 'C11', 'C03', 'C09', 'C10', 'C20', 'C06'], '%s.contains_key(%s) && %s[%s] == %s' % (M1, K, M1, K, NEW)),
+    ('fits_exact', ['C04', 'C03', 'C20', 'C07', 'C08'], '(%s || old(self).limit is None || %s.len() < old(self).limit->Some_0) ==> '
      '%s == %s.insert(%s, %s) && final(self).order@ == touch(old(self).order@, %s)' % (REPL, MA, M1, M0, K, NEW, K)),
     ('overflow_one_victim', ['C04', 'C07', 'C08'], '(!%s && old(self).limit is Some && %s.len() >= old(self).limit->Some_0) ==> '
      'exists|v: String| async_victim_ok(old(self).policy, %s, %s, v, old(self).ttl, old(self).frequency_weight) && %s == (#[trigger] %s.remove(v)).insert(%s, %s) && final(self).order@ == rm1(%s, v).push(%s)'
@@ -201,7 +201,7 @@ INSERTM_ENS = [
     ('stats_frame', ['C15'], 'final(self).stats == old(self).stats'),
     ('oversize_not_cached', ['C05'], '%s ==> %s == %s && final(self).order@ == %s' % (OVERSIZE, M1, MA, QA)),
     ('total_le_max', ['C05'], '(old(self).max_memory is Some && !%s) ==> a_mem_total(%s, final(self).order@) <= old(self).max_memory->Some_0' % (OVERSIZE, M1)),
-    ('last_store_wins', ['C01', 'C11', 'C03', 'C09', 'C10'], '!%s ==> %s.contains_key(%s) && %s[%s] == %s' % (OVERSIZE, M1, K, M1, K, NEW)),
+    ('last_store_wins', ['C01', 'C11', 'C03', 'C09', 'C10', 'C20', 'C06'], '!%s ==> %s.contains_key(%s) && %s[%s] == %s' % (OVERSIZE, M1, K, M1, K, NEW)),
     ('fits_no_eviction', ['C05', 'C03', 'C04'], '(!%s && %s && (old(self).limit is None || %s.len() < old(self).limit->Some_0)) ==> '
      '%s == %s.insert(%s, %s) && final(self).order@ == touch(old(self).order@, %s)' % (OVERSIZE, MEMFITS, MA, M1, M0, K, NEW, K)),
     ('survivors_unchanged', ['C01', 'C05'], 'forall|x: String| x != %s && #[trigger] %s.contains_key(x) ==> %s.contains_key(x) && %s[x] == %s[x]' % (K, M1, M0, M1, M0)),
